@@ -5,7 +5,7 @@ use ip::{Afi, PrefixRange};
 use netconf::message::{WriteError, WriteXml};
 use quick_xml::{events::BytesText, ElementWriter, Writer};
 
-use super::{Differences, Update, Updates};
+use super::{Differences, Ranges, Update, Updates};
 
 pub(crate) trait Load: Debug + Send + Sync {
     type Update: WriteXml + Debug + Send + Sync;
@@ -91,6 +91,12 @@ impl WriteXml for Update<'_> {
 
 impl<A: Afi> WriteXml for Differences<'_, A> {
     fn write_xml<W: Write>(&self, writer: &mut Writer<W>) -> Result<(), WriteError> {
+        if self.new.is_empty() && self.old.map_or(true, Ranges::is_empty) {
+            // Nothing is installed for this address family and nothing shall be: write nothing.
+            // A bare `<term><name>..</name></term>` would create an empty term, which
+            // `Policies::<Installed>::read_xml` rejects (no `<then>`), failing every later run.
+            return Ok(());
+        }
         let elem = {
             let elem = writer.create_element("term");
             match (self.old, self.new.is_empty()) {
